@@ -57,7 +57,7 @@ def main():
     if '--scratch' in a:
         # same procedure on a scratch worktree of /repo (VERIF_REPO), for use while something else is building from /repo
         a.remove('--scratch')
-        scratch = '/tmp/mmd6-wt-seeded'
+        scratch = '/tmp/mmd6-wt-seeded-%d' % os.getpid()          # one worktree per invocation: several runs may be going on at once
         sh(['git', '-C', '/repo', 'worktree', 'remove', '--force', scratch])
         wt = sh(['git', '-C', '/repo', 'worktree', 'add', '--detach', scratch, 'HEAD'])
         assert wt.returncode == 0, wt.stderr
@@ -91,6 +91,7 @@ def _main(a):
             merged = dict(prev['checks'])
             merged.update(r['checks'])
             r['checks'] = merged
+        allres = json.load(open(rp)) if os.path.exists(rp) else {}          # re-read: another invocation may have added rows meanwhile
         allres[n] = r
         print(json.dumps(r)[:600])
         json.dump(allres, open(rp, 'w'), indent=1, sort_keys=True)
